@@ -186,6 +186,8 @@ struct WorldP : World {
       std::string v = cl.substr(0, cl.find(' ')); for (auto &c : v) c = (char)tolower((unsigned char)c);
       std::string arg = cl.find(' ') == std::string::npos ? std::string() : cl.substr(cl.find(' ')); while (!arg.empty() && arg[0] == ' ') arg.erase(0, 1);
       bool ok = r.compare(0, 3, "+OK") == 0;
+      // (QUIT may already have said "-ERR unable to unlink all deleted messages" - a file somebody else removed - before it runs out of memory: the last thing the server says decides)
+      if (alloc_fault && v == "quit" && authed && !fault_excused && rx.size() >= 20 && rx.compare(rx.size() - 20, 20, "-ERR out of memory\r\n") == 0 && daemon_done) { k->probe("pop3_command_refused_under_alloc_fault"); return; }
       if (alloc_fault && !ok && !fault_excused && authed && r.find("memory") != std::string::npos) { fault_excused = true; k->probe("pop3_command_refused_under_alloc_fault");
         if (v == "quit") return;   // QUIT ran out of memory half-way: some of the requested deletions and moves are done, the rest is not; both are what the client asked for
         continue; }
